@@ -1,9 +1,617 @@
 import FlytModel.GoIR.Syntax
 /-! EXPECTED IR: the committed copy the refinement theorems are about (tools/accept_ir.sh copies Generated/IR.lean here).
-    One GoIR term per orchestration function (syntax-directed translation of its body). -/
+    One GoIR term per function of the package (syntax-directed translation of its body). -/
 namespace Flyt.Expected.IR
 open Flyt.GoIR
-set_option maxRecDepth 4096
+set_option maxRecDepth 8192
+
+def As : Func := { name := "As", recv := "", params := ["r"], body :=
+B[
+  (.declare "zero" "T"),
+  (.ifS B[] (.bin "==" (.sel (.var "r") "value") (.var "nil")) B[
+    (.ret E[(.var "zero"), (.var "false")])] B[]),
+  (.define ["typed", "ok"] E[(.assert (.sel (.var "r") "value") "T")]),
+  (.ret E[(.var "typed"), (.var "ok")])] }
+
+def BaseNode_Exec : Func := { name := "BaseNode.Exec", recv := "n", params := ["ctx", "prepResult"], body :=
+B[
+  (.ret E[(.var "nil"), (.var "nil")])] }
+
+def BaseNode_ExecFallback : Func := { name := "BaseNode.ExecFallback", recv := "n", params := ["prepResult", "err"], body :=
+B[
+  (.ret E[(.var "nil"), (.var "err")])] }
+
+def BaseNode_GetBatchConcurrency : Func := { name := "BaseNode.GetBatchConcurrency", recv := "n", params := [], body :=
+B[
+  (.expr (.mcall (.sel (.var "n") "mu") "RLock" E[])),
+  (.deferS (.mcall (.sel (.var "n") "mu") "RUnlock" E[])),
+  (.ret E[(.sel (.var "n") "batchConcurrency")])] }
+
+def BaseNode_GetBatchErrorHandling : Func := { name := "BaseNode.GetBatchErrorHandling", recv := "n", params := [], body :=
+B[
+  (.expr (.mcall (.sel (.var "n") "mu") "RLock" E[])),
+  (.deferS (.mcall (.sel (.var "n") "mu") "RUnlock" E[])),
+  (.ifS B[] (.bin "==" (.sel (.var "n") "batchErrorHandling") (.str "")) B[
+    (.ret E[(.str "continue")])] B[]),
+  (.ret E[(.sel (.var "n") "batchErrorHandling")])] }
+
+def BaseNode_GetMaxRetries : Func := { name := "BaseNode.GetMaxRetries", recv := "n", params := [], body :=
+B[
+  (.expr (.mcall (.sel (.var "n") "mu") "RLock" E[])),
+  (.deferS (.mcall (.sel (.var "n") "mu") "RUnlock" E[])),
+  (.ret E[(.sel (.var "n") "maxRetries")])] }
+
+def BaseNode_GetWait : Func := { name := "BaseNode.GetWait", recv := "n", params := [], body :=
+B[
+  (.expr (.mcall (.sel (.var "n") "mu") "RLock" E[])),
+  (.deferS (.mcall (.sel (.var "n") "mu") "RUnlock" E[])),
+  (.ret E[(.sel (.var "n") "wait")])] }
+
+def BaseNode_Post : Func := { name := "BaseNode.Post", recv := "n", params := ["ctx", "shared", "prepResult", "execResult"], body :=
+B[
+  (.ret E[(.var "DefaultAction"), (.var "nil")])] }
+
+def BaseNode_Prep : Func := { name := "BaseNode.Prep", recv := "n", params := ["ctx", "shared"], body :=
+B[
+  (.ret E[(.var "nil"), (.var "nil")])] }
+
+def BatchError_Error : Func := { name := "BatchError.Error", recv := "e", params := [], body :=
+B[
+  (.ifS B[] (.bin "==" (.call "len" E[(.sel (.var "e") "Errors")]) (.int 0)) B[
+    (.ret E[(.str "batch: no errors recorded")])] B[]),
+  (.ifS B[] (.bin "==" (.call "len" E[(.sel (.var "e") "Errors")]) (.int 1)) B[
+    (.ret E[(.call "fmt.Sprintf" E[(.str "batch: %v"), (.index (.sel (.var "e") "Errors") (.int 0))])])] B[]),
+  (.ret E[(.call "fmt.Sprintf" E[(.str "batch: %d errors occurred, first: %v"), (.call "len" E[(.sel (.var "e") "Errors")]), (.index (.sel (.var "e") "Errors") (.int 0))])])] }
+
+def BatchNode_Post : Func := { name := "BatchNode.Post", recv := "n", params := ["ctx", "shared", "prepResult", "execResult"], body :=
+B[
+  (.ifS B[] (.bin "!=" (.sel (.var "n") "batchPostFunc") (.var "nil")) B[
+    (.define ["prep"] E[(.assert (.var "prepResult") "[]Result")]),
+    (.define ["exec"] E[(.assert (.var "execResult") "[]Result")]),
+    (.ret E[(.mcall (.var "n") "batchPostFunc" E[(.var "ctx"), (.var "shared"), (.var "prep"), (.var "exec")])])] B[]),
+  (.ret E[(.var "DefaultAction"), (.var "nil")])] }
+
+def BatchNode_Prep : Func := { name := "BatchNode.Prep", recv := "n", params := ["ctx", "shared"], body :=
+B[
+  (.ifS B[] (.bin "!=" (.sel (.var "n") "batchPrepFunc") (.var "nil")) B[
+    (.ret E[(.mcall (.var "n") "batchPrepFunc" E[(.var "ctx"), (.var "shared")])])] B[]),
+  (.ret E[(.mcall (.sel (.var "n") "CustomNode") "Prep" E[(.var "ctx"), (.var "shared")])])] }
+
+def BatchNodeBuilder_Exec : Func := { name := "BatchNodeBuilder.Exec", recv := "b", params := ["ctx", "prepResult"], body :=
+B[
+  (.ret E[(.mcall (.sel (.var "b") "BatchNode") "Exec" E[(.var "ctx"), (.var "prepResult")])])] }
+
+def BatchNodeBuilder_Post : Func := { name := "BatchNodeBuilder.Post", recv := "b", params := ["ctx", "shared", "prepResult", "execResult"], body :=
+B[
+  (.ret E[(.mcall (.sel (.var "b") "BatchNode") "Post" E[(.var "ctx"), (.var "shared"), (.var "prepResult"), (.var "execResult")])])] }
+
+def BatchNodeBuilder_Prep : Func := { name := "BatchNodeBuilder.Prep", recv := "b", params := ["ctx", "shared"], body :=
+B[
+  (.ret E[(.mcall (.sel (.var "b") "BatchNode") "Prep" E[(.var "ctx"), (.var "shared")])])] }
+
+def BatchNodeBuilder_WithBatchConcurrency : Func := { name := "BatchNodeBuilder.WithBatchConcurrency", recv := "b", params := ["n"], body :=
+B[
+  (.assign E[(.sel (.var "b") "batchConcurrency")] E[(.var "n")]),
+  (.ret E[(.var "b")])] }
+
+def BatchNodeBuilder_WithBatchErrorHandling : Func := { name := "BatchNodeBuilder.WithBatchErrorHandling", recv := "b", params := ["continueOnError"], body :=
+B[
+  (.ifS B[] (.var "continueOnError") B[
+    (.assign E[(.sel (.var "b") "batchErrorHandling")] E[(.str "continue")])] B[
+    (.assign E[(.sel (.var "b") "batchErrorHandling")] E[(.str "stop")])]),
+  (.ret E[(.var "b")])] }
+
+def BatchNodeBuilder_WithExecFunc : Func := { name := "BatchNodeBuilder.WithExecFunc", recv := "b", params := ["fn"], body :=
+B[
+  (.assign E[(.sel (.var "b") "execFunc")] E[(.var "fn")]),
+  (.ret E[(.var "b")])] }
+
+def BatchNodeBuilder_WithExecFuncAny : Func := { name := "BatchNodeBuilder.WithExecFuncAny", recv := "b", params := ["fn"], body :=
+B[
+  (.assign E[(.sel (.var "b") "execFunc")] E[(.funcLit ["ctx", "prepResult"] B[
+        (.define ["val", "err"] E[(.call "fn" E[(.var "ctx"), (.mcall (.var "prepResult") "Value" E[])])]),
+        (.ifS B[] (.bin "!=" (.var "err") (.var "nil")) B[
+          (.ret E[(.lit "Result" E[]), (.var "err")])] B[]),
+        (.ret E[(.call "NewResult" E[(.var "val")]), (.var "nil")])])]),
+  (.ret E[(.var "b")])] }
+
+def BatchNodeBuilder_WithMaxRetries : Func := { name := "BatchNodeBuilder.WithMaxRetries", recv := "b", params := ["retries"], body :=
+B[
+  (.expr (.mcall (.call "WithMaxRetries" E[(.var "retries")]) "()" E[(.sel (.var "b") "BaseNode")])),
+  (.ret E[(.var "b")])] }
+
+def BatchNodeBuilder_WithPostFunc : Func := { name := "BatchNodeBuilder.WithPostFunc", recv := "b", params := ["fn"], body :=
+B[
+  (.assign E[(.sel (.var "b") "batchPostFunc")] E[(.var "fn")]),
+  (.ret E[(.var "b")])] }
+
+def BatchNodeBuilder_WithPrepFunc : Func := { name := "BatchNodeBuilder.WithPrepFunc", recv := "b", params := ["fn"], body :=
+B[
+  (.assign E[(.sel (.var "b") "batchPrepFunc")] E[(.var "fn")]),
+  (.ret E[(.var "b")])] }
+
+def BatchNodeBuilder_WithWait : Func := { name := "BatchNodeBuilder.WithWait", recv := "b", params := ["wait"], body :=
+B[
+  (.expr (.mcall (.call "WithWait" E[(.var "wait")]) "()" E[(.sel (.var "b") "BaseNode")])),
+  (.ret E[(.var "b")])] }
+
+def CustomNode_Exec : Func := { name := "CustomNode.Exec", recv := "n", params := ["ctx", "prepResult"], body :=
+B[
+  (.ifS B[] (.bin "!=" (.sel (.var "n") "execFunc") (.var "nil")) B[
+    (.declare "result" "Result"),
+    (.declare "err" "error"),
+    (.ifS B[(.define ["r", "ok"] E[(.assert (.var "prepResult") "Result")])] (.var "ok") B[
+      (.assign E[(.var "result"), (.var "err")] E[(.mcall (.var "n") "execFunc" E[(.var "ctx"), (.var "r")])])] B[
+      (.assign E[(.var "result"), (.var "err")] E[(.mcall (.var "n") "execFunc" E[(.var "ctx"), (.call "NewResult" E[(.var "prepResult")])])])]),
+    (.ifS B[] (.bin "!=" (.var "err") (.var "nil")) B[
+      (.ret E[(.var "nil"), (.var "err")])] B[]),
+    (.ifS B[] (.mcall (.var "result") "IsError" E[]) B[
+      (.ret E[(.var "result"), (.var "nil")])] B[]),
+    (.ret E[(.mcall (.var "result") "Value" E[]), (.var "nil")])] B[]),
+  (.ret E[(.mcall (.sel (.var "n") "BaseNode") "Exec" E[(.var "ctx"), (.var "prepResult")])])] }
+
+def CustomNode_ExecFallback : Func := { name := "CustomNode.ExecFallback", recv := "n", params := ["prepResult", "err"], body :=
+B[
+  (.ifS B[] (.bin "!=" (.sel (.var "n") "execFallbackFunc") (.var "nil")) B[
+    (.ret E[(.mcall (.var "n") "execFallbackFunc" E[(.var "prepResult"), (.var "err")])])] B[]),
+  (.ret E[(.mcall (.sel (.var "n") "BaseNode") "ExecFallback" E[(.var "prepResult"), (.var "err")])])] }
+
+def CustomNode_Post : Func := { name := "CustomNode.Post", recv := "n", params := ["ctx", "shared", "prepResult", "execResult"], body :=
+B[
+  (.ifS B[] (.bin "!=" (.sel (.var "n") "postFunc") (.var "nil")) B[
+    (.define ["execRes"] E[(.call "NewResult" E[(.var "execResult")])]),
+    (.ifS B[(.define ["r", "ok"] E[(.assert (.var "execResult") "Result")])] (.bin "&&" (.var "ok") (.mcall (.var "r") "IsError" E[])) B[
+      (.assign E[(.var "execRes")] E[(.var "r")])] B[]),
+    (.ret E[(.mcall (.var "n") "postFunc" E[(.var "ctx"), (.var "shared"), (.call "NewResult" E[(.var "prepResult")]), (.var "execRes")])])] B[]),
+  (.ret E[(.mcall (.sel (.var "n") "BaseNode") "Post" E[(.var "ctx"), (.var "shared"), (.var "prepResult"), (.var "execResult")])])] }
+
+def CustomNode_Prep : Func := { name := "CustomNode.Prep", recv := "n", params := ["ctx", "shared"], body :=
+B[
+  (.ifS B[] (.bin "!=" (.sel (.var "n") "prepFunc") (.var "nil")) B[
+    (.define ["result", "err"] E[(.mcall (.var "n") "prepFunc" E[(.var "ctx"), (.var "shared")])]),
+    (.ifS B[] (.bin "!=" (.var "err") (.var "nil")) B[
+      (.ret E[(.var "nil"), (.var "err")])] B[]),
+    (.ret E[(.mcall (.var "result") "Value" E[]), (.var "nil")])] B[]),
+  (.ret E[(.mcall (.sel (.var "n") "BaseNode") "Prep" E[(.var "ctx"), (.var "shared")])])] }
+
+def Flow_Connect : Func := { name := "Flow.Connect", recv := "f", params := ["from", "action", "to"], body :=
+B[
+  (.ifS B[] (.bin "==" (.index (.sel (.var "f") "transitions") (.var "from")) (.var "nil")) B[
+    (.assign E[(.index (.sel (.var "f") "transitions") (.var "from"))] E[(.call "make" E[(.var "map[Action]Node")])])] B[]),
+  (.assign E[(.index (.index (.sel (.var "f") "transitions") (.var "from")) (.var "action"))] E[(.var "to")]),
+  (.ret E[(.var "f")])] }
+
+def Flow_Exec : Func := { name := "Flow.Exec", recv := "f", params := ["ctx", "prepResult"], body :=
+B[
+  (.define ["shared", "ok"] E[(.assert (.var "prepResult") "*SharedStore")]),
+  (.ifS B[] (.un "!" (.var "ok")) B[
+    (.ret E[(.var "nil"), (.call "fmt.Errorf" E[(.str "flow: exec failed: invalid prepResult type %T, expected *SharedStore"), (.var "prepResult")])])] B[]),
+  (.ifS B[] (.bin "==" (.sel (.var "f") "start") (.var "nil")) B[
+    (.ret E[(.var "nil"), (.call "fmt.Errorf" E[(.str "flow: exec failed: no start node configured")])])] B[]),
+  (.define ["current"] E[(.sel (.var "f") "start")]),
+  (.declare "lastAction" "Action"),
+  (.forS B[] (.bin "!=" (.var "current") (.var "nil")) B[] B[
+    (.ifS B[(.define ["err"] E[(.mcall (.var "ctx") "Err" E[])])] (.bin "!=" (.var "err") (.var "nil")) B[
+      (.ret E[(.var "nil"), (.call "fmt.Errorf" E[(.str "flow: exec cancelled: %w"), (.var "err")])])] B[]),
+    (.define ["action", "err"] E[(.call "Run" E[(.var "ctx"), (.var "current"), (.var "shared")])]),
+    (.ifS B[] (.bin "!=" (.var "err") (.var "nil")) B[
+      (.ret E[(.var "nil"), (.var "err")])] B[]),
+    (.assign E[(.var "lastAction")] E[(.var "action")]),
+    (.ifS B[(.define ["transitions", "ok"] E[(.index (.sel (.var "f") "transitions") (.var "current"))])] (.var "ok") B[
+      (.ifS B[(.define ["next", "ok"] E[(.index (.var "transitions") (.var "action"))])] (.var "ok") B[
+        (.assign E[(.var "current")] E[(.var "next")])] B[
+        .brk])] B[
+      .brk])]),
+  (.ret E[(.var "lastAction"), (.var "nil")])] }
+
+def Flow_Post : Func := { name := "Flow.Post", recv := "f", params := ["ctx", "shared", "prepResult", "execResult"], body :=
+B[
+  (.ifS B[(.define ["action", "ok"] E[(.assert (.var "execResult") "Action")])] (.var "ok") B[
+    (.ret E[(.var "action"), (.var "nil")])] B[]),
+  (.ret E[(.var "DefaultAction"), (.var "nil")])] }
+
+def Flow_Prep : Func := { name := "Flow.Prep", recv := "f", params := ["ctx", "shared"], body :=
+B[
+  (.ret E[(.var "shared"), (.var "nil")])] }
+
+def Flow_Run : Func := { name := "Flow.Run", recv := "f", params := ["ctx", "shared"], body :=
+B[
+  (.define ["_", "err"] E[(.call "Run" E[(.var "ctx"), (.var "f"), (.var "shared")])]),
+  (.ret E[(.var "err")])] }
+
+def MustAs : Func := { name := "MustAs", recv := "", params := ["r"], body :=
+B[
+  (.define ["typed", "ok"] E[(.unsupported "As[T](r)")]),
+  (.ifS B[] (.un "!" (.var "ok")) B[
+    (.expr (.call "panic" E[(.call "fmt.Sprintf" E[(.str "Result.MustAs: value is not of type %T"), (.un "*" (.call "new" E[(.var "T")]))])]))] B[]),
+  (.ret E[(.var "typed")])] }
+
+def NewBaseNode : Func := { name := "NewBaseNode", recv := "", params := ["opts"], body :=
+B[
+  (.define ["n"] E[(.un "&" (.lit "BaseNode" E[(.bin ":" (.var "maxRetries") (.int 1)), (.bin ":" (.var "wait") (.int 0))]))]),
+  (.rangeS "_" "opt" (.var "opts") B[
+    (.expr (.call "opt" E[(.var "n")]))]),
+  (.ret E[(.var "n")])] }
+
+def NewBatchNode : Func := { name := "NewBatchNode", recv := "", params := ["opts"], body :=
+B[
+  (.define ["customNode"] E[(.un "&" (.lit "CustomNode" E[(.bin ":" (.var "BaseNode") (.call "NewBaseNode" E[]))]))]),
+  (.declare "baseOpts" "[]NodeOption"),
+  (.rangeS "_" "opt" (.var "opts") B[
+    (.typeSwitch "o" (.var "opt") (Cases.ofList [
+      ((.lit "types" E[(.var "NodeOption")]), B[
+        (.assign E[(.var "baseOpts")] E[(.call "append" E[(.var "baseOpts"), (.var "o")])])]),
+      ((.lit "types" E[(.var "func(*BaseNode)")]), B[
+        (.assign E[(.var "baseOpts")] E[(.call "append" E[(.var "baseOpts"), (.conv "NodeOption" (.var "o"))])])])]))]),
+  (.rangeS "_" "opt" (.var "baseOpts") B[
+    (.expr (.call "opt" E[(.sel (.var "customNode") "BaseNode")]))]),
+  (.ret E[(.un "&" (.lit "BatchNodeBuilder" E[(.bin ":" (.var "BatchNode") (.un "&" (.lit "BatchNode" E[(.bin ":" (.var "CustomNode") (.var "customNode"))])))]))])] }
+
+def NewErrorResult : Func := { name := "NewErrorResult", recv := "", params := ["err"], body :=
+B[
+  (.ret E[(.lit "Result" E[(.bin ":" (.var "err") (.var "err"))])])] }
+
+def NewFlow : Func := { name := "NewFlow", recv := "", params := ["start"], body :=
+B[
+  (.ret E[(.un "&" (.lit "Flow" E[(.bin ":" (.var "BaseNode") (.call "NewBaseNode" E[])), (.bin ":" (.var "start") (.var "start")), (.bin ":" (.var "transitions") (.call "make" E[(.var "map[Node]map[Action]Node")]))]))])] }
+
+def NewNode : Func := { name := "NewNode", recv := "", params := ["opts"], body :=
+B[
+  (.define ["node"] E[(.un "&" (.lit "CustomNode" E[(.bin ":" (.var "BaseNode") (.call "NewBaseNode" E[]))]))]),
+  (.declare "customOpts" "[]CustomNodeOption"),
+  (.declare "baseOpts" "[]NodeOption"),
+  (.rangeS "_" "opt" (.var "opts") B[
+    (.typeSwitch "o" (.var "opt") (Cases.ofList [
+      ((.lit "types" E[(.var "CustomNodeOption")]), B[
+        (.assign E[(.var "customOpts")] E[(.call "append" E[(.var "customOpts"), (.var "o")])])]),
+      ((.lit "types" E[(.var "NodeOption")]), B[
+        (.assign E[(.var "baseOpts")] E[(.call "append" E[(.var "baseOpts"), (.var "o")])])]),
+      ((.lit "types" E[(.var "func(*BaseNode)")]), B[
+        (.assign E[(.var "baseOpts")] E[(.call "append" E[(.var "baseOpts"), (.conv "NodeOption" (.var "o"))])])]),
+      ((.var "default"), B[])]))]),
+  (.rangeS "_" "opt" (.var "baseOpts") B[
+    (.expr (.call "opt" E[(.sel (.var "node") "BaseNode")]))]),
+  (.rangeS "_" "opt" (.var "customOpts") B[
+    (.expr (.mcall (.var "opt") "apply" E[(.var "node")]))]),
+  (.ret E[(.un "&" (.lit "NodeBuilder" E[(.bin ":" (.var "CustomNode") (.var "node"))]))])] }
+
+def NewResult : Func := { name := "NewResult", recv := "", params := ["v"], body :=
+B[
+  (.ret E[(.lit "Result" E[(.bin ":" (.var "value") (.var "v"))])])] }
+
+def NewSharedStore : Func := { name := "NewSharedStore", recv := "", params := [], body :=
+B[
+  (.ret E[(.un "&" (.lit "SharedStore" E[(.bin ":" (.var "data") (.call "make" E[(.var "map[string]any")]))]))])] }
+
+def NewWorkerPool : Func := { name := "NewWorkerPool", recv := "", params := ["workers"], body :=
+B[
+  (.ifS B[] (.bin "<=" (.var "workers") (.int 0)) B[
+    (.assign E[(.var "workers")] E[(.int 1)])] B[]),
+  (.define ["p"] E[(.un "&" (.lit "WorkerPool" E[(.bin ":" (.var "workers") (.var "workers")), (.bin ":" (.var "tasks") (.call "make" E[(.var "chan func()"), (.bin "*" (.var "workers") (.int 2))])), (.bin ":" (.var "done") (.call "make" E[(.var "chan struct{}")]))]))]),
+  (.forS B[(.define ["i"] E[(.int 0)])] (.bin "<" (.var "i") (.var "workers")) B[(.incr "i")] B[
+    (.goS (.mcall (.var "p") "worker" E[]))]),
+  (.ret E[(.var "p")])] }
+
+def NodeBuilder_Exec : Func := { name := "NodeBuilder.Exec", recv := "b", params := ["ctx", "prepResult"], body :=
+B[
+  (.ret E[(.mcall (.sel (.var "b") "CustomNode") "Exec" E[(.var "ctx"), (.var "prepResult")])])] }
+
+def NodeBuilder_ExecFallback : Func := { name := "NodeBuilder.ExecFallback", recv := "b", params := ["prepResult", "err"], body :=
+B[
+  (.ret E[(.mcall (.sel (.var "b") "CustomNode") "ExecFallback" E[(.var "prepResult"), (.var "err")])])] }
+
+def NodeBuilder_GetMaxRetries : Func := { name := "NodeBuilder.GetMaxRetries", recv := "b", params := [], body :=
+B[
+  (.ret E[(.mcall (.sel (.var "b") "CustomNode") "GetMaxRetries" E[])])] }
+
+def NodeBuilder_GetWait : Func := { name := "NodeBuilder.GetWait", recv := "b", params := [], body :=
+B[
+  (.ret E[(.mcall (.sel (.var "b") "CustomNode") "GetWait" E[])])] }
+
+def NodeBuilder_Post : Func := { name := "NodeBuilder.Post", recv := "b", params := ["ctx", "shared", "prepResult", "execResult"], body :=
+B[
+  (.ret E[(.mcall (.sel (.var "b") "CustomNode") "Post" E[(.var "ctx"), (.var "shared"), (.var "prepResult"), (.var "execResult")])])] }
+
+def NodeBuilder_Prep : Func := { name := "NodeBuilder.Prep", recv := "b", params := ["ctx", "shared"], body :=
+B[
+  (.ret E[(.mcall (.sel (.var "b") "CustomNode") "Prep" E[(.var "ctx"), (.var "shared")])])] }
+
+def NodeBuilder_WithBatchConcurrency : Func := { name := "NodeBuilder.WithBatchConcurrency", recv := "b", params := ["n"], body :=
+B[
+  (.assign E[(.sel (.var "b") "batchConcurrency")] E[(.var "n")]),
+  (.ret E[(.var "b")])] }
+
+def NodeBuilder_WithBatchErrorHandling : Func := { name := "NodeBuilder.WithBatchErrorHandling", recv := "b", params := ["continueOnError"], body :=
+B[
+  (.ifS B[] (.var "continueOnError") B[
+    (.assign E[(.sel (.var "b") "batchErrorHandling")] E[(.str "continue")])] B[
+    (.assign E[(.sel (.var "b") "batchErrorHandling")] E[(.str "stop")])]),
+  (.ret E[(.var "b")])] }
+
+def NodeBuilder_WithExecFallbackFunc : Func := { name := "NodeBuilder.WithExecFallbackFunc", recv := "b", params := ["fn"], body :=
+B[
+  (.assign E[(.sel (.var "b") "execFallbackFunc")] E[(.var "fn")]),
+  (.ret E[(.var "b")])] }
+
+def NodeBuilder_WithExecFunc : Func := { name := "NodeBuilder.WithExecFunc", recv := "b", params := ["fn"], body :=
+B[
+  (.assign E[(.sel (.var "b") "execFunc")] E[(.var "fn")]),
+  (.ret E[(.var "b")])] }
+
+def NodeBuilder_WithExecFuncAny : Func := { name := "NodeBuilder.WithExecFuncAny", recv := "b", params := ["fn"], body :=
+B[
+  (.assign E[(.sel (.var "b") "execFunc")] E[(.funcLit ["ctx", "prepResult"] B[
+        (.define ["val", "err"] E[(.call "fn" E[(.var "ctx"), (.mcall (.var "prepResult") "Value" E[])])]),
+        (.ifS B[] (.bin "!=" (.var "err") (.var "nil")) B[
+          (.ret E[(.lit "Result" E[]), (.var "err")])] B[]),
+        (.ret E[(.call "NewResult" E[(.var "val")]), (.var "nil")])])]),
+  (.ret E[(.var "b")])] }
+
+def NodeBuilder_WithMaxRetries : Func := { name := "NodeBuilder.WithMaxRetries", recv := "b", params := ["retries"], body :=
+B[
+  (.expr (.mcall (.call "WithMaxRetries" E[(.var "retries")]) "()" E[(.sel (.var "b") "BaseNode")])),
+  (.ret E[(.var "b")])] }
+
+def NodeBuilder_WithPostFunc : Func := { name := "NodeBuilder.WithPostFunc", recv := "b", params := ["fn"], body :=
+B[
+  (.assign E[(.sel (.var "b") "postFunc")] E[(.var "fn")]),
+  (.ret E[(.var "b")])] }
+
+def NodeBuilder_WithPostFuncAny : Func := { name := "NodeBuilder.WithPostFuncAny", recv := "b", params := ["fn"], body :=
+B[
+  (.assign E[(.sel (.var "b") "postFunc")] E[(.funcLit ["ctx", "shared", "prepResult", "execResult"] B[
+        (.ret E[(.call "fn" E[(.var "ctx"), (.var "shared"), (.mcall (.var "prepResult") "Value" E[]), (.mcall (.var "execResult") "Value" E[])])])])]),
+  (.ret E[(.var "b")])] }
+
+def NodeBuilder_WithPrepFunc : Func := { name := "NodeBuilder.WithPrepFunc", recv := "b", params := ["fn"], body :=
+B[
+  (.assign E[(.sel (.var "b") "prepFunc")] E[(.var "fn")]),
+  (.ret E[(.var "b")])] }
+
+def NodeBuilder_WithPrepFuncAny : Func := { name := "NodeBuilder.WithPrepFuncAny", recv := "b", params := ["fn"], body :=
+B[
+  (.assign E[(.sel (.var "b") "prepFunc")] E[(.funcLit ["ctx", "shared"] B[
+        (.define ["val", "err"] E[(.call "fn" E[(.var "ctx"), (.var "shared")])]),
+        (.ifS B[] (.bin "!=" (.var "err") (.var "nil")) B[
+          (.ret E[(.lit "Result" E[]), (.var "err")])] B[]),
+        (.ret E[(.call "NewResult" E[(.var "val")]), (.var "nil")])])]),
+  (.ret E[(.var "b")])] }
+
+def NodeBuilder_WithWait : Func := { name := "NodeBuilder.WithWait", recv := "b", params := ["wait"], body :=
+B[
+  (.expr (.mcall (.call "WithWait" E[(.var "wait")]) "()" E[(.sel (.var "b") "BaseNode")])),
+  (.ret E[(.var "b")])] }
+
+def R : Func := { name := "R", recv := "", params := ["v"], body :=
+B[
+  (.ret E[(.call "NewResult" E[(.var "v")])])] }
+
+def Result_AsBool : Func := { name := "Result.AsBool", recv := "r", params := [], body :=
+B[
+  (.ifS B[] (.bin "==" (.sel (.var "r") "value") (.var "nil")) B[
+    (.ret E[(.var "false"), (.var "false")])] B[]),
+  (.define ["b", "ok"] E[(.assert (.sel (.var "r") "value") "bool")]),
+  (.ret E[(.var "b"), (.var "ok")])] }
+
+def Result_AsBoolOr : Func := { name := "Result.AsBoolOr", recv := "r", params := ["defaultVal"], body :=
+B[
+  (.define ["b", "ok"] E[(.mcall (.var "r") "AsBool" E[])]),
+  (.ifS B[] (.un "!" (.var "ok")) B[
+    (.ret E[(.var "defaultVal")])] B[]),
+  (.ret E[(.var "b")])] }
+
+def Result_AsFloat64 : Func := { name := "Result.AsFloat64", recv := "r", params := [], body :=
+B[
+  (.ifS B[] (.bin "==" (.sel (.var "r") "value") (.var "nil")) B[
+    (.ret E[(.unsupported "0.0"), (.var "false")])] B[]),
+  (.typeSwitch "v" (.sel (.var "r") "value") (Cases.ofList [
+    ((.lit "types" E[(.var "float64")]), B[
+      (.ret E[(.var "v"), (.var "true")])]),
+    ((.lit "types" E[(.var "float32")]), B[
+      (.ret E[(.conv "float64" (.var "v")), (.var "true")])]),
+    ((.lit "types" E[(.var "int")]), B[
+      (.ret E[(.conv "float64" (.var "v")), (.var "true")])]),
+    ((.lit "types" E[(.var "int8")]), B[
+      (.ret E[(.conv "float64" (.var "v")), (.var "true")])]),
+    ((.lit "types" E[(.var "int16")]), B[
+      (.ret E[(.conv "float64" (.var "v")), (.var "true")])]),
+    ((.lit "types" E[(.var "int32")]), B[
+      (.ret E[(.conv "float64" (.var "v")), (.var "true")])]),
+    ((.lit "types" E[(.var "int64")]), B[
+      (.ret E[(.conv "float64" (.var "v")), (.var "true")])]),
+    ((.lit "types" E[(.var "uint")]), B[
+      (.ret E[(.conv "float64" (.var "v")), (.var "true")])]),
+    ((.lit "types" E[(.var "uint8")]), B[
+      (.ret E[(.conv "float64" (.var "v")), (.var "true")])]),
+    ((.lit "types" E[(.var "uint16")]), B[
+      (.ret E[(.conv "float64" (.var "v")), (.var "true")])]),
+    ((.lit "types" E[(.var "uint32")]), B[
+      (.ret E[(.conv "float64" (.var "v")), (.var "true")])]),
+    ((.lit "types" E[(.var "uint64")]), B[
+      (.ret E[(.conv "float64" (.var "v")), (.var "true")])]),
+    ((.var "default"), B[
+      (.ret E[(.unsupported "0.0"), (.var "false")])])]))] }
+
+def Result_AsFloat64Or : Func := { name := "Result.AsFloat64Or", recv := "r", params := ["defaultVal"], body :=
+B[
+  (.define ["f", "ok"] E[(.mcall (.var "r") "AsFloat64" E[])]),
+  (.ifS B[] (.un "!" (.var "ok")) B[
+    (.ret E[(.var "defaultVal")])] B[]),
+  (.ret E[(.var "f")])] }
+
+def Result_AsInt : Func := { name := "Result.AsInt", recv := "r", params := [], body :=
+B[
+  (.ifS B[] (.bin "==" (.sel (.var "r") "value") (.var "nil")) B[
+    (.ret E[(.int 0), (.var "false")])] B[]),
+  (.typeSwitch "v" (.sel (.var "r") "value") (Cases.ofList [
+    ((.lit "types" E[(.var "int")]), B[
+      (.ret E[(.var "v"), (.var "true")])]),
+    ((.lit "types" E[(.var "int8")]), B[
+      (.ret E[(.conv "int" (.var "v")), (.var "true")])]),
+    ((.lit "types" E[(.var "int16")]), B[
+      (.ret E[(.conv "int" (.var "v")), (.var "true")])]),
+    ((.lit "types" E[(.var "int32")]), B[
+      (.ret E[(.conv "int" (.var "v")), (.var "true")])]),
+    ((.lit "types" E[(.var "int64")]), B[
+      (.ret E[(.conv "int" (.var "v")), (.var "true")])]),
+    ((.lit "types" E[(.var "uint")]), B[
+      (.ret E[(.conv "int" (.var "v")), (.var "true")])]),
+    ((.lit "types" E[(.var "uint8")]), B[
+      (.ret E[(.conv "int" (.var "v")), (.var "true")])]),
+    ((.lit "types" E[(.var "uint16")]), B[
+      (.ret E[(.conv "int" (.var "v")), (.var "true")])]),
+    ((.lit "types" E[(.var "uint32")]), B[
+      (.ret E[(.conv "int" (.var "v")), (.var "true")])]),
+    ((.lit "types" E[(.var "uint64")]), B[
+      (.ret E[(.conv "int" (.var "v")), (.var "true")])]),
+    ((.lit "types" E[(.var "float32")]), B[
+      (.ret E[(.conv "int" (.var "v")), (.var "true")])]),
+    ((.lit "types" E[(.var "float64")]), B[
+      (.ret E[(.conv "int" (.var "v")), (.var "true")])]),
+    ((.var "default"), B[
+      (.ret E[(.int 0), (.var "false")])])]))] }
+
+def Result_AsIntOr : Func := { name := "Result.AsIntOr", recv := "r", params := ["defaultVal"], body :=
+B[
+  (.define ["i", "ok"] E[(.mcall (.var "r") "AsInt" E[])]),
+  (.ifS B[] (.un "!" (.var "ok")) B[
+    (.ret E[(.var "defaultVal")])] B[]),
+  (.ret E[(.var "i")])] }
+
+def Result_AsMap : Func := { name := "Result.AsMap", recv := "r", params := [], body :=
+B[
+  (.ifS B[] (.bin "==" (.sel (.var "r") "value") (.var "nil")) B[
+    (.ret E[(.var "nil"), (.var "false")])] B[]),
+  (.define ["m", "ok"] E[(.assert (.sel (.var "r") "value") "map[string]any")]),
+  (.ret E[(.var "m"), (.var "ok")])] }
+
+def Result_AsMapOr : Func := { name := "Result.AsMapOr", recv := "r", params := ["defaultVal"], body :=
+B[
+  (.define ["m", "ok"] E[(.mcall (.var "r") "AsMap" E[])]),
+  (.ifS B[] (.un "!" (.var "ok")) B[
+    (.ret E[(.var "defaultVal")])] B[]),
+  (.ret E[(.var "m")])] }
+
+def Result_AsSlice : Func := { name := "Result.AsSlice", recv := "r", params := [], body :=
+B[
+  (.ifS B[] (.bin "==" (.sel (.var "r") "value") (.var "nil")) B[
+    (.ret E[(.var "nil"), (.var "false")])] B[]),
+  (.ifS B[(.define ["slice", "ok"] E[(.assert (.sel (.var "r") "value") "[]any")])] (.var "ok") B[
+    (.ret E[(.var "slice"), (.var "true")])] B[]),
+  (.ifS B[] (.bin "!=" (.mcall (.call "reflect.ValueOf" E[(.sel (.var "r") "value")]) "Kind" E[]) (.sel (.var "reflect") "Slice")) B[
+    (.ret E[(.var "nil"), (.var "false")])] B[]),
+  (.ret E[(.call "ToSlice" E[(.sel (.var "r") "value")]), (.var "true")])] }
+
+def Result_AsSliceOr : Func := { name := "Result.AsSliceOr", recv := "r", params := ["defaultVal"], body :=
+B[
+  (.define ["s", "ok"] E[(.mcall (.var "r") "AsSlice" E[])]),
+  (.ifS B[] (.un "!" (.var "ok")) B[
+    (.ret E[(.var "defaultVal")])] B[]),
+  (.ret E[(.var "s")])] }
+
+def Result_AsString : Func := { name := "Result.AsString", recv := "r", params := [], body :=
+B[
+  (.ifS B[] (.bin "==" (.sel (.var "r") "value") (.var "nil")) B[
+    (.ret E[(.str ""), (.var "false")])] B[]),
+  (.define ["s", "ok"] E[(.assert (.sel (.var "r") "value") "string")]),
+  (.ret E[(.var "s"), (.var "ok")])] }
+
+def Result_AsStringOr : Func := { name := "Result.AsStringOr", recv := "r", params := ["defaultVal"], body :=
+B[
+  (.define ["s", "ok"] E[(.mcall (.var "r") "AsString" E[])]),
+  (.ifS B[] (.un "!" (.var "ok")) B[
+    (.ret E[(.var "defaultVal")])] B[]),
+  (.ret E[(.var "s")])] }
+
+def Result_Bind : Func := { name := "Result.Bind", recv := "r", params := ["dest"], body :=
+B[
+  (.ifS B[] (.bin "==" (.sel (.var "r") "value") (.var "nil")) B[
+    (.ret E[(.call "fmt.Errorf" E[(.str "cannot bind nil Result value")])])] B[]),
+  (.define ["rv"] E[(.call "reflect.ValueOf" E[(.var "dest")])]),
+  (.ifS B[] (.bin "||" (.bin "!=" (.mcall (.var "rv") "Kind" E[]) (.sel (.var "reflect") "Ptr")) (.mcall (.var "rv") "IsNil" E[])) B[
+    (.ret E[(.call "fmt.Errorf" E[(.str "destination must be a non-nil pointer")])])] B[]),
+  (.define ["valType"] E[(.call "reflect.TypeOf" E[(.sel (.var "r") "value")])]),
+  (.define ["destType"] E[(.mcall (.mcall (.var "rv") "Type" E[]) "Elem" E[])]),
+  (.ifS B[] (.bin "==" (.var "valType") (.var "destType")) B[
+    (.expr (.mcall (.mcall (.var "rv") "Elem" E[]) "Set" E[(.call "reflect.ValueOf" E[(.sel (.var "r") "value")])])),
+    (.ret E[(.var "nil")])] B[]),
+  (.define ["jsonBytes", "err"] E[(.call "json.Marshal" E[(.sel (.var "r") "value")])]),
+  (.ifS B[] (.bin "!=" (.var "err") (.var "nil")) B[
+    (.ret E[(.call "fmt.Errorf" E[(.str "failed to marshal Result: %w"), (.var "err")])])] B[]),
+  (.ifS B[(.define ["err"] E[(.call "json.Unmarshal" E[(.var "jsonBytes"), (.var "dest")])])] (.bin "!=" (.var "err") (.var "nil")) B[
+    (.ret E[(.call "fmt.Errorf" E[(.str "failed to unmarshal to destination: %w"), (.var "err")])])] B[]),
+  (.ret E[(.var "nil")])] }
+
+def Result_Error : Func := { name := "Result.Error", recv := "r", params := [], body :=
+B[
+  (.ret E[(.sel (.var "r") "err")])] }
+
+def Result_IsError : Func := { name := "Result.IsError", recv := "r", params := [], body :=
+B[
+  (.ret E[(.bin "!=" (.sel (.var "r") "err") (.var "nil"))])] }
+
+def Result_IsNil : Func := { name := "Result.IsNil", recv := "r", params := [], body :=
+B[
+  (.ret E[(.bin "==" (.sel (.var "r") "value") (.var "nil"))])] }
+
+def Result_MustBind : Func := { name := "Result.MustBind", recv := "r", params := ["dest"], body :=
+B[
+  (.ifS B[(.define ["err"] E[(.mcall (.var "r") "Bind" E[(.var "dest")])])] (.bin "!=" (.var "err") (.var "nil")) B[
+    (.expr (.call "panic" E[(.call "fmt.Sprintf" E[(.str "Result.MustBind failed: %v"), (.var "err")])]))] B[])] }
+
+def Result_MustBool : Func := { name := "Result.MustBool", recv := "r", params := [], body :=
+B[
+  (.define ["b", "ok"] E[(.mcall (.var "r") "AsBool" E[])]),
+  (.ifS B[] (.un "!" (.var "ok")) B[
+    (.expr (.call "panic" E[(.call "fmt.Sprintf" E[(.str "Result.MustBool: value is not a bool (type %T)"), (.var "r")])]))] B[]),
+  (.ret E[(.var "b")])] }
+
+def Result_MustFloat64 : Func := { name := "Result.MustFloat64", recv := "r", params := [], body :=
+B[
+  (.define ["f", "ok"] E[(.mcall (.var "r") "AsFloat64" E[])]),
+  (.ifS B[] (.un "!" (.var "ok")) B[
+    (.expr (.call "panic" E[(.call "fmt.Sprintf" E[(.str "Result.MustFloat64: value cannot be converted to float64 (type %T)"), (.var "r")])]))] B[]),
+  (.ret E[(.var "f")])] }
+
+def Result_MustInt : Func := { name := "Result.MustInt", recv := "r", params := [], body :=
+B[
+  (.define ["i", "ok"] E[(.mcall (.var "r") "AsInt" E[])]),
+  (.ifS B[] (.un "!" (.var "ok")) B[
+    (.expr (.call "panic" E[(.call "fmt.Sprintf" E[(.str "Result.MustInt: value cannot be converted to int (type %T)"), (.var "r")])]))] B[]),
+  (.ret E[(.var "i")])] }
+
+def Result_MustMap : Func := { name := "Result.MustMap", recv := "r", params := [], body :=
+B[
+  (.define ["m", "ok"] E[(.mcall (.var "r") "AsMap" E[])]),
+  (.ifS B[] (.un "!" (.var "ok")) B[
+    (.expr (.call "panic" E[(.call "fmt.Sprintf" E[(.str "Result.MustMap: value is not a map[string]any (type %T)"), (.var "r")])]))] B[]),
+  (.ret E[(.var "m")])] }
+
+def Result_MustSlice : Func := { name := "Result.MustSlice", recv := "r", params := [], body :=
+B[
+  (.define ["s", "ok"] E[(.mcall (.var "r") "AsSlice" E[])]),
+  (.ifS B[] (.un "!" (.var "ok")) B[
+    (.expr (.call "panic" E[(.call "fmt.Sprintf" E[(.str "Result.MustSlice: value is not a slice (type %T)"), (.var "r")])]))] B[]),
+  (.ret E[(.var "s")])] }
+
+def Result_MustString : Func := { name := "Result.MustString", recv := "r", params := [], body :=
+B[
+  (.define ["s", "ok"] E[(.mcall (.var "r") "AsString" E[])]),
+  (.ifS B[] (.un "!" (.var "ok")) B[
+    (.expr (.call "panic" E[(.call "fmt.Sprintf" E[(.str "Result.MustString: value is not a string (type %T)"), (.var "r")])]))] B[]),
+  (.ret E[(.var "s")])] }
+
+def Result_Type : Func := { name := "Result.Type", recv := "r", params := [], body :=
+B[
+  (.ifS B[] (.bin "==" (.sel (.var "r") "value") (.var "nil")) B[
+    (.ret E[(.str "nil")])] B[]),
+  (.ret E[(.call "fmt.Sprintf" E[(.str "%T"), (.sel (.var "r") "value")])])] }
+
+def Result_Value : Func := { name := "Result.Value", recv := "r", params := [], body :=
+B[
+  (.ifS B[] (.bin "!=" (.sel (.var "r") "err") (.var "nil")) B[
+    (.ret E[(.var "nil")])] B[]),
+  (.ret E[(.sel (.var "r") "value")])] }
 
 def Run : Func := { name := "Run", recv := "", params := ["ctx", "node", "shared"], body :=
 B[
@@ -47,6 +655,371 @@ B[
   (.ifS B[] (.bin "==" (.var "action") (.str "")) B[
     (.assign E[(.var "action")] E[(.var "DefaultAction")])] B[]),
   (.ret E[(.var "action"), (.var "nil")])] }
+
+def SharedStore_Bind : Func := { name := "SharedStore.Bind", recv := "s", params := ["key", "dest"], body :=
+B[
+  (.define ["val", "ok"] E[(.mcall (.var "s") "Get" E[(.var "key")])]),
+  (.ifS B[] (.un "!" (.var "ok")) B[
+    (.ret E[(.call "fmt.Errorf" E[(.str "key %q not found in shared store"), (.var "key")])])] B[]),
+  (.define ["rv"] E[(.call "reflect.ValueOf" E[(.var "dest")])]),
+  (.ifS B[] (.bin "||" (.bin "!=" (.mcall (.var "rv") "Kind" E[]) (.sel (.var "reflect") "Ptr")) (.mcall (.var "rv") "IsNil" E[])) B[
+    (.ret E[(.call "fmt.Errorf" E[(.str "destination must be a non-nil pointer")])])] B[]),
+  (.define ["valType"] E[(.call "reflect.TypeOf" E[(.var "val")])]),
+  (.define ["destType"] E[(.mcall (.mcall (.var "rv") "Type" E[]) "Elem" E[])]),
+  (.ifS B[] (.bin "==" (.var "valType") (.var "destType")) B[
+    (.expr (.mcall (.mcall (.var "rv") "Elem" E[]) "Set" E[(.call "reflect.ValueOf" E[(.var "val")])])),
+    (.ret E[(.var "nil")])] B[]),
+  (.define ["jsonBytes", "err"] E[(.call "json.Marshal" E[(.var "val")])]),
+  (.ifS B[] (.bin "!=" (.var "err") (.var "nil")) B[
+    (.ret E[(.call "fmt.Errorf" E[(.str "failed to marshal value: %w"), (.var "err")])])] B[]),
+  (.ifS B[(.define ["err"] E[(.call "json.Unmarshal" E[(.var "jsonBytes"), (.var "dest")])])] (.bin "!=" (.var "err") (.var "nil")) B[
+    (.ret E[(.call "fmt.Errorf" E[(.str "failed to unmarshal to destination: %w"), (.var "err")])])] B[]),
+  (.ret E[(.var "nil")])] }
+
+def SharedStore_Clear : Func := { name := "SharedStore.Clear", recv := "s", params := [], body :=
+B[
+  (.expr (.mcall (.sel (.var "s") "mu") "Lock" E[])),
+  (.deferS (.mcall (.sel (.var "s") "mu") "Unlock" E[])),
+  (.assign E[(.sel (.var "s") "data")] E[(.call "make" E[(.var "map[string]any")])])] }
+
+def SharedStore_Delete : Func := { name := "SharedStore.Delete", recv := "s", params := ["key"], body :=
+B[
+  (.expr (.mcall (.sel (.var "s") "mu") "Lock" E[])),
+  (.deferS (.mcall (.sel (.var "s") "mu") "Unlock" E[])),
+  (.expr (.call "delete" E[(.sel (.var "s") "data"), (.var "key")]))] }
+
+def SharedStore_Get : Func := { name := "SharedStore.Get", recv := "s", params := ["key"], body :=
+B[
+  (.expr (.mcall (.sel (.var "s") "mu") "RLock" E[])),
+  (.deferS (.mcall (.sel (.var "s") "mu") "RUnlock" E[])),
+  (.define ["val", "ok"] E[(.index (.sel (.var "s") "data") (.var "key"))]),
+  (.ret E[(.var "val"), (.var "ok")])] }
+
+def SharedStore_GetAll : Func := { name := "SharedStore.GetAll", recv := "s", params := [], body :=
+B[
+  (.expr (.mcall (.sel (.var "s") "mu") "RLock" E[])),
+  (.deferS (.mcall (.sel (.var "s") "mu") "RUnlock" E[])),
+  (.define ["copy"] E[(.call "make" E[(.var "map[string]any"), (.call "len" E[(.sel (.var "s") "data")])])]),
+  (.rangeS "k" "v" (.sel (.var "s") "data") B[
+    (.assign E[(.index (.var "copy") (.var "k"))] E[(.var "v")])]),
+  (.ret E[(.var "copy")])] }
+
+def SharedStore_GetBool : Func := { name := "SharedStore.GetBool", recv := "s", params := ["key"], body :=
+B[
+  (.ret E[(.mcall (.var "s") "GetBoolOr" E[(.var "key"), (.var "false")])])] }
+
+def SharedStore_GetBoolOr : Func := { name := "SharedStore.GetBoolOr", recv := "s", params := ["key", "defaultVal"], body :=
+B[
+  (.define ["val", "ok"] E[(.mcall (.var "s") "Get" E[(.var "key")])]),
+  (.ifS B[] (.un "!" (.var "ok")) B[
+    (.ret E[(.var "defaultVal")])] B[]),
+  (.define ["b", "ok"] E[(.assert (.var "val") "bool")]),
+  (.ifS B[] (.un "!" (.var "ok")) B[
+    (.ret E[(.var "defaultVal")])] B[]),
+  (.ret E[(.var "b")])] }
+
+def SharedStore_GetFloat64 : Func := { name := "SharedStore.GetFloat64", recv := "s", params := ["key"], body :=
+B[
+  (.ret E[(.mcall (.var "s") "GetFloat64Or" E[(.var "key"), (.unsupported "0.0")])])] }
+
+def SharedStore_GetFloat64Or : Func := { name := "SharedStore.GetFloat64Or", recv := "s", params := ["key", "defaultVal"], body :=
+B[
+  (.define ["val", "ok"] E[(.mcall (.var "s") "Get" E[(.var "key")])]),
+  (.ifS B[] (.un "!" (.var "ok")) B[
+    (.ret E[(.var "defaultVal")])] B[]),
+  (.typeSwitch "v" (.var "val") (Cases.ofList [
+    ((.lit "types" E[(.var "float64")]), B[
+      (.ret E[(.var "v")])]),
+    ((.lit "types" E[(.var "float32")]), B[
+      (.ret E[(.conv "float64" (.var "v"))])]),
+    ((.lit "types" E[(.var "int")]), B[
+      (.ret E[(.conv "float64" (.var "v"))])]),
+    ((.lit "types" E[(.var "int8")]), B[
+      (.ret E[(.conv "float64" (.var "v"))])]),
+    ((.lit "types" E[(.var "int16")]), B[
+      (.ret E[(.conv "float64" (.var "v"))])]),
+    ((.lit "types" E[(.var "int32")]), B[
+      (.ret E[(.conv "float64" (.var "v"))])]),
+    ((.lit "types" E[(.var "int64")]), B[
+      (.ret E[(.conv "float64" (.var "v"))])]),
+    ((.lit "types" E[(.var "uint")]), B[
+      (.ret E[(.conv "float64" (.var "v"))])]),
+    ((.lit "types" E[(.var "uint8")]), B[
+      (.ret E[(.conv "float64" (.var "v"))])]),
+    ((.lit "types" E[(.var "uint16")]), B[
+      (.ret E[(.conv "float64" (.var "v"))])]),
+    ((.lit "types" E[(.var "uint32")]), B[
+      (.ret E[(.conv "float64" (.var "v"))])]),
+    ((.lit "types" E[(.var "uint64")]), B[
+      (.ret E[(.conv "float64" (.var "v"))])]),
+    ((.var "default"), B[
+      (.ret E[(.var "defaultVal")])])]))] }
+
+def SharedStore_GetInt : Func := { name := "SharedStore.GetInt", recv := "s", params := ["key"], body :=
+B[
+  (.ret E[(.mcall (.var "s") "GetIntOr" E[(.var "key"), (.int 0)])])] }
+
+def SharedStore_GetIntOr : Func := { name := "SharedStore.GetIntOr", recv := "s", params := ["key", "defaultVal"], body :=
+B[
+  (.define ["val", "ok"] E[(.mcall (.var "s") "Get" E[(.var "key")])]),
+  (.ifS B[] (.un "!" (.var "ok")) B[
+    (.ret E[(.var "defaultVal")])] B[]),
+  (.typeSwitch "v" (.var "val") (Cases.ofList [
+    ((.lit "types" E[(.var "int")]), B[
+      (.ret E[(.var "v")])]),
+    ((.lit "types" E[(.var "int8")]), B[
+      (.ret E[(.conv "int" (.var "v"))])]),
+    ((.lit "types" E[(.var "int16")]), B[
+      (.ret E[(.conv "int" (.var "v"))])]),
+    ((.lit "types" E[(.var "int32")]), B[
+      (.ret E[(.conv "int" (.var "v"))])]),
+    ((.lit "types" E[(.var "int64")]), B[
+      (.ret E[(.conv "int" (.var "v"))])]),
+    ((.lit "types" E[(.var "uint")]), B[
+      (.ret E[(.conv "int" (.var "v"))])]),
+    ((.lit "types" E[(.var "uint8")]), B[
+      (.ret E[(.conv "int" (.var "v"))])]),
+    ((.lit "types" E[(.var "uint16")]), B[
+      (.ret E[(.conv "int" (.var "v"))])]),
+    ((.lit "types" E[(.var "uint32")]), B[
+      (.ret E[(.conv "int" (.var "v"))])]),
+    ((.lit "types" E[(.var "uint64")]), B[
+      (.ret E[(.conv "int" (.var "v"))])]),
+    ((.lit "types" E[(.var "float32")]), B[
+      (.ret E[(.conv "int" (.var "v"))])]),
+    ((.lit "types" E[(.var "float64")]), B[
+      (.ret E[(.conv "int" (.var "v"))])]),
+    ((.var "default"), B[
+      (.ret E[(.var "defaultVal")])])]))] }
+
+def SharedStore_GetMap : Func := { name := "SharedStore.GetMap", recv := "s", params := ["key"], body :=
+B[
+  (.ret E[(.mcall (.var "s") "GetMapOr" E[(.var "key"), (.var "nil")])])] }
+
+def SharedStore_GetMapOr : Func := { name := "SharedStore.GetMapOr", recv := "s", params := ["key", "defaultVal"], body :=
+B[
+  (.define ["val", "ok"] E[(.mcall (.var "s") "Get" E[(.var "key")])]),
+  (.ifS B[] (.un "!" (.var "ok")) B[
+    (.ret E[(.var "defaultVal")])] B[]),
+  (.define ["m", "ok"] E[(.assert (.var "val") "map[string]any")]),
+  (.ifS B[] (.un "!" (.var "ok")) B[
+    (.ret E[(.var "defaultVal")])] B[]),
+  (.ret E[(.var "m")])] }
+
+def SharedStore_GetSlice : Func := { name := "SharedStore.GetSlice", recv := "s", params := ["key"], body :=
+B[
+  (.ret E[(.mcall (.var "s") "GetSliceOr" E[(.var "key"), (.var "nil")])])] }
+
+def SharedStore_GetSliceOr : Func := { name := "SharedStore.GetSliceOr", recv := "s", params := ["key", "defaultVal"], body :=
+B[
+  (.define ["val", "ok"] E[(.mcall (.var "s") "Get" E[(.var "key")])]),
+  (.ifS B[] (.un "!" (.var "ok")) B[
+    (.ret E[(.var "defaultVal")])] B[]),
+  (.ifS B[] (.bin "==" (.var "val") (.var "nil")) B[
+    (.ret E[(.var "defaultVal")])] B[]),
+  (.ifS B[(.define ["slice", "ok"] E[(.assert (.var "val") "[]any")])] (.var "ok") B[
+    (.ret E[(.var "slice")])] B[]),
+  (.ifS B[] (.bin "!=" (.mcall (.call "reflect.ValueOf" E[(.var "val")]) "Kind" E[]) (.sel (.var "reflect") "Slice")) B[
+    (.ret E[(.var "defaultVal")])] B[]),
+  (.ret E[(.call "ToSlice" E[(.var "val")])])] }
+
+def SharedStore_GetString : Func := { name := "SharedStore.GetString", recv := "s", params := ["key"], body :=
+B[
+  (.define ["val", "ok"] E[(.mcall (.var "s") "Get" E[(.var "key")])]),
+  (.ifS B[] (.un "!" (.var "ok")) B[
+    (.ret E[(.str "")])] B[]),
+  (.define ["str", "_"] E[(.assert (.var "val") "string")]),
+  (.ret E[(.var "str")])] }
+
+def SharedStore_GetStringOr : Func := { name := "SharedStore.GetStringOr", recv := "s", params := ["key", "defaultVal"], body :=
+B[
+  (.define ["val", "ok"] E[(.mcall (.var "s") "Get" E[(.var "key")])]),
+  (.ifS B[] (.un "!" (.var "ok")) B[
+    (.ret E[(.var "defaultVal")])] B[]),
+  (.define ["str", "ok"] E[(.assert (.var "val") "string")]),
+  (.ifS B[] (.un "!" (.var "ok")) B[
+    (.ret E[(.var "defaultVal")])] B[]),
+  (.ret E[(.var "str")])] }
+
+def SharedStore_Has : Func := { name := "SharedStore.Has", recv := "s", params := ["key"], body :=
+B[
+  (.expr (.mcall (.sel (.var "s") "mu") "RLock" E[])),
+  (.deferS (.mcall (.sel (.var "s") "mu") "RUnlock" E[])),
+  (.define ["_", "ok"] E[(.index (.sel (.var "s") "data") (.var "key"))]),
+  (.ret E[(.var "ok")])] }
+
+def SharedStore_Keys : Func := { name := "SharedStore.Keys", recv := "s", params := [], body :=
+B[
+  (.expr (.mcall (.sel (.var "s") "mu") "RLock" E[])),
+  (.deferS (.mcall (.sel (.var "s") "mu") "RUnlock" E[])),
+  (.define ["keys"] E[(.call "make" E[(.var "[]string"), (.int 0), (.call "len" E[(.sel (.var "s") "data")])])]),
+  (.rangeS "k" "_" (.sel (.var "s") "data") B[
+    (.assign E[(.var "keys")] E[(.call "append" E[(.var "keys"), (.var "k")])])]),
+  (.ret E[(.var "keys")])] }
+
+def SharedStore_Len : Func := { name := "SharedStore.Len", recv := "s", params := [], body :=
+B[
+  (.expr (.mcall (.sel (.var "s") "mu") "RLock" E[])),
+  (.deferS (.mcall (.sel (.var "s") "mu") "RUnlock" E[])),
+  (.ret E[(.call "len" E[(.sel (.var "s") "data")])])] }
+
+def SharedStore_Merge : Func := { name := "SharedStore.Merge", recv := "s", params := ["data"], body :=
+B[
+  (.ifS B[] (.bin "==" (.var "data") (.var "nil")) B[
+    (.ret E[])] B[]),
+  (.expr (.mcall (.sel (.var "s") "mu") "Lock" E[])),
+  (.deferS (.mcall (.sel (.var "s") "mu") "Unlock" E[])),
+  (.rangeS "k" "v" (.var "data") B[
+    (.assign E[(.index (.sel (.var "s") "data") (.var "k"))] E[(.var "v")])])] }
+
+def SharedStore_MustBind : Func := { name := "SharedStore.MustBind", recv := "s", params := ["key", "dest"], body :=
+B[
+  (.ifS B[(.define ["err"] E[(.mcall (.var "s") "Bind" E[(.var "key"), (.var "dest")])])] (.bin "!=" (.var "err") (.var "nil")) B[
+    (.expr (.call "panic" E[(.call "fmt.Sprintf" E[(.str "SharedStore.MustBind failed: %v"), (.var "err")])]))] B[])] }
+
+def SharedStore_Set : Func := { name := "SharedStore.Set", recv := "s", params := ["key", "value"], body :=
+B[
+  (.expr (.mcall (.sel (.var "s") "mu") "Lock" E[])),
+  (.deferS (.mcall (.sel (.var "s") "mu") "Unlock" E[])),
+  (.assign E[(.index (.sel (.var "s") "data") (.var "key"))] E[(.var "value")])] }
+
+def ToSlice : Func := { name := "ToSlice", recv := "", params := ["v"], body :=
+B[
+  (.ifS B[] (.bin "==" (.var "v") (.var "nil")) B[
+    (.ret E[(.lit "[]any" E[])])] B[]),
+  (.typeSwitch "val" (.var "v") (Cases.ofList [
+    ((.lit "types" E[(.var "[]any")]), B[
+      (.ret E[(.var "val")])]),
+    ((.lit "types" E[(.var "[]string")]), B[
+      (.define ["result"] E[(.call "make" E[(.var "[]any"), (.call "len" E[(.var "val")])])]),
+      (.rangeS "i" "v" (.var "val") B[
+        (.assign E[(.index (.var "result") (.var "i"))] E[(.var "v")])]),
+      (.ret E[(.var "result")])]),
+    ((.lit "types" E[(.var "[]int")]), B[
+      (.define ["result"] E[(.call "make" E[(.var "[]any"), (.call "len" E[(.var "val")])])]),
+      (.rangeS "i" "v" (.var "val") B[
+        (.assign E[(.index (.var "result") (.var "i"))] E[(.var "v")])]),
+      (.ret E[(.var "result")])]),
+    ((.lit "types" E[(.var "[]float64")]), B[
+      (.define ["result"] E[(.call "make" E[(.var "[]any"), (.call "len" E[(.var "val")])])]),
+      (.rangeS "i" "v" (.var "val") B[
+        (.assign E[(.index (.var "result") (.var "i"))] E[(.var "v")])]),
+      (.ret E[(.var "result")])]),
+    ((.lit "types" E[(.var "[]map[string]any")]), B[
+      (.define ["result"] E[(.call "make" E[(.var "[]any"), (.call "len" E[(.var "val")])])]),
+      (.rangeS "i" "v" (.var "val") B[
+        (.assign E[(.index (.var "result") (.var "i"))] E[(.var "v")])]),
+      (.ret E[(.var "result")])]),
+    ((.var "default"), B[
+      (.define ["rv"] E[(.call "reflect.ValueOf" E[(.var "v")])]),
+      (.ifS B[] (.bin "==" (.mcall (.var "rv") "Kind" E[]) (.sel (.var "reflect") "Slice")) B[
+        (.define ["result"] E[(.call "make" E[(.var "[]any"), (.mcall (.var "rv") "Len" E[])])]),
+        (.forS B[(.define ["i"] E[(.int 0)])] (.bin "<" (.var "i") (.mcall (.var "rv") "Len" E[])) B[(.incr "i")] B[
+          (.assign E[(.index (.var "result") (.var "i"))] E[(.mcall (.mcall (.var "rv") "Index" E[(.var "i")]) "Interface" E[])])]),
+        (.ret E[(.var "result")])] B[]),
+      (.ret E[(.lit "[]any" E[(.var "v")])])])]))] }
+
+def WithBatchConcurrency : Func := { name := "WithBatchConcurrency", recv := "", params := ["n"], body :=
+B[
+  (.ret E[(.funcLit ["node"] B[
+        (.assign E[(.sel (.var "node") "batchConcurrency")] E[(.var "n")])])])] }
+
+def WithBatchErrorHandling : Func := { name := "WithBatchErrorHandling", recv := "", params := ["continueOnError"], body :=
+B[
+  (.ret E[(.funcLit ["node"] B[
+        (.ifS B[] (.var "continueOnError") B[
+          (.assign E[(.sel (.var "node") "batchErrorHandling")] E[(.str "continue")])] B[
+          (.assign E[(.sel (.var "node") "batchErrorHandling")] E[(.str "stop")])])])])] }
+
+def WithExecFallbackFunc : Func := { name := "WithExecFallbackFunc", recv := "", params := ["fn"], body :=
+B[
+  (.ret E[(.un "&" (.lit "customNodeOption" E[(.bin ":" (.var "f") (.funcLit ["n"] B[
+        (.assign E[(.sel (.var "n") "execFallbackFunc")] E[(.var "fn")])]))]))])] }
+
+def WithExecFunc : Func := { name := "WithExecFunc", recv := "", params := ["fn"], body :=
+B[
+  (.ret E[(.un "&" (.lit "customNodeOption" E[(.bin ":" (.var "f") (.funcLit ["n"] B[
+        (.assign E[(.sel (.var "n") "execFunc")] E[(.var "fn")])]))]))])] }
+
+def WithExecFuncAny : Func := { name := "WithExecFuncAny", recv := "", params := ["fn"], body :=
+B[
+  (.ret E[(.un "&" (.lit "customNodeOption" E[(.bin ":" (.var "f") (.funcLit ["n"] B[
+        (.assign E[(.sel (.var "n") "execFunc")] E[(.funcLit ["ctx", "prepResult"] B[
+        (.define ["val", "err"] E[(.call "fn" E[(.var "ctx"), (.mcall (.var "prepResult") "Value" E[])])]),
+        (.ifS B[] (.bin "!=" (.var "err") (.var "nil")) B[
+          (.ret E[(.lit "Result" E[]), (.var "err")])] B[]),
+        (.ret E[(.call "NewResult" E[(.var "val")]), (.var "nil")])])])]))]))])] }
+
+def WithMaxRetries : Func := { name := "WithMaxRetries", recv := "", params := ["retries"], body :=
+B[
+  (.ret E[(.funcLit ["n"] B[
+        (.assign E[(.sel (.var "n") "maxRetries")] E[(.var "retries")])])])] }
+
+def WithPostFunc : Func := { name := "WithPostFunc", recv := "", params := ["fn"], body :=
+B[
+  (.ret E[(.un "&" (.lit "customNodeOption" E[(.bin ":" (.var "f") (.funcLit ["n"] B[
+        (.assign E[(.sel (.var "n") "postFunc")] E[(.var "fn")])]))]))])] }
+
+def WithPostFuncAny : Func := { name := "WithPostFuncAny", recv := "", params := ["fn"], body :=
+B[
+  (.ret E[(.un "&" (.lit "customNodeOption" E[(.bin ":" (.var "f") (.funcLit ["n"] B[
+        (.assign E[(.sel (.var "n") "postFunc")] E[(.funcLit ["ctx", "shared", "prepResult", "execResult"] B[
+        (.ret E[(.call "fn" E[(.var "ctx"), (.var "shared"), (.mcall (.var "prepResult") "Value" E[]), (.mcall (.var "execResult") "Value" E[])])])])])]))]))])] }
+
+def WithPrepFunc : Func := { name := "WithPrepFunc", recv := "", params := ["fn"], body :=
+B[
+  (.ret E[(.un "&" (.lit "customNodeOption" E[(.bin ":" (.var "f") (.funcLit ["n"] B[
+        (.assign E[(.sel (.var "n") "prepFunc")] E[(.var "fn")])]))]))])] }
+
+def WithPrepFuncAny : Func := { name := "WithPrepFuncAny", recv := "", params := ["fn"], body :=
+B[
+  (.ret E[(.un "&" (.lit "customNodeOption" E[(.bin ":" (.var "f") (.funcLit ["n"] B[
+        (.assign E[(.sel (.var "n") "prepFunc")] E[(.funcLit ["ctx", "shared"] B[
+        (.define ["val", "err"] E[(.call "fn" E[(.var "ctx"), (.var "shared")])]),
+        (.ifS B[] (.bin "!=" (.var "err") (.var "nil")) B[
+          (.ret E[(.lit "Result" E[]), (.var "err")])] B[]),
+        (.ret E[(.call "NewResult" E[(.var "val")]), (.var "nil")])])])]))]))])] }
+
+def WithWait : Func := { name := "WithWait", recv := "", params := ["wait"], body :=
+B[
+  (.ret E[(.funcLit ["n"] B[
+        (.assign E[(.sel (.var "n") "wait")] E[(.var "wait")])])])] }
+
+def WorkerPool_Close : Func := { name := "WorkerPool.Close", recv := "p", params := [], body :=
+B[
+  (.expr (.call "close" E[(.sel (.var "p") "done")])),
+  (.expr (.call "close" E[(.sel (.var "p") "tasks")]))] }
+
+def WorkerPool_Submit : Func := { name := "WorkerPool.Submit", recv := "p", params := ["task"], body :=
+B[
+  (.expr (.mcall (.sel (.var "p") "wg") "Add" E[(.int 1)])),
+  (.send (.sel (.var "p") "tasks") (.funcLit [] B[
+        (.deferS (.mcall (.sel (.var "p") "wg") "Done" E[])),
+        (.expr (.call "task" E[]))]))] }
+
+def WorkerPool_Wait : Func := { name := "WorkerPool.Wait", recv := "p", params := [], body :=
+B[
+  (.expr (.mcall (.sel (.var "p") "wg") "Wait" E[]))] }
+
+def WorkerPool_worker : Func := { name := "WorkerPool.worker", recv := "p", params := [], body :=
+B[
+  (.forS B[] (.var "true") B[] B[
+    (.selectS (Cases.ofList [
+      ((.bin ":=" (.lit "names" E[(.var "task"), (.var "ok")]) (.un "<-" (.sel (.var "p") "tasks"))), B[
+        (.ifS B[] (.un "!" (.var "ok")) B[
+          (.ret E[])] B[]),
+        (.expr (.call "task" E[]))]),
+      ((.un "<-" (.sel (.var "p") "done")), B[
+        (.ret E[])])]))])] }
+
+def customNodeOption_apply : Func := { name := "customNodeOption.apply", recv := "o", params := ["n"], body :=
+B[
+  (.expr (.mcall (.var "o") "f" E[(.var "n")]))] }
+
+def markUnprocessed : Func := { name := "markUnprocessed", recv := "", params := ["results", "reason"], body :=
+B[
+  (.rangeS "i" "_" (.var "results") B[
+    (.assign E[(.index (.var "results") (.var "i"))] E[(.call "NewErrorResult" E[(.call "fmt.Errorf" E[(.str "%s"), (.var "reason")])])])])] }
 
 def runBatch : Func := { name := "runBatch", recv := "", params := ["ctx", "node", "shared"], body :=
 B[
@@ -95,25 +1068,6 @@ B[
     (.assign E[(.var "action")] E[(.var "DefaultAction")])] B[]),
   (.ret E[(.var "action"), (.var "nil")])] }
 
-def runBatchSequential : Func := { name := "runBatchSequential", recv := "", params := ["ctx", "node", "items", "results", "errorHandling"], body :=
-B[
-  (.rangeS "i" "item" (.var "items") B[
-    (.ifS B[] (.bin "!=" (.mcall (.var "ctx") "Err" E[]) (.var "nil")) B[
-      (.assign E[(.index (.var "results") (.var "i"))] E[(.call "NewErrorResult" E[(.call "fmt.Errorf" E[(.str "context cancelled")])])]),
-      (.ifS B[] (.bin "==" (.var "errorHandling") (.str "stop")) B[
-        (.expr (.call "markUnprocessed" E[(.sliceFrom (.var "results") (.bin "+" (.var "i") (.int 1))), (.str "context cancelled")])),
-        .brk] B[]),
-      .cont] B[]),
-    (.define ["execResult", "err"] E[(.call "runExecWithRetries" E[(.var "ctx"), (.var "node"), (.var "item")])]),
-    (.ifS B[] (.bin "!=" (.var "err") (.var "nil")) B[
-      (.assign E[(.index (.var "results") (.var "i"))] E[(.call "NewErrorResult" E[(.var "err")])]),
-      (.ifS B[] (.bin "==" (.var "errorHandling") (.str "stop")) B[
-        (.expr (.call "markUnprocessed" E[(.sliceFrom (.var "results") (.bin "+" (.var "i") (.int 1))), (.str "batch stopped due to error")])),
-        .brk] B[])] B[
-      (.ifS B[(.define ["r", "ok"] E[(.assert (.var "execResult") "Result")])] (.var "ok") B[
-        (.assign E[(.index (.var "results") (.var "i"))] E[(.var "r")])] B[
-        (.assign E[(.index (.var "results") (.var "i"))] E[(.call "NewResult" E[(.var "execResult")])])])])])] }
-
 def runBatchConcurrent : Func := { name := "runBatchConcurrent", recv := "", params := ["ctx", "node", "items", "results", "concurrency", "errorHandling"], body :=
 B[
   (.define ["pool"] E[(.call "NewWorkerPool" E[(.var "concurrency")])]),
@@ -145,10 +1099,24 @@ B[
         (.expr (.mcall (.var "mu") "Unlock" E[]))])]))]),
   (.expr (.mcall (.var "pool") "Wait" E[]))] }
 
-def markUnprocessed : Func := { name := "markUnprocessed", recv := "", params := ["results", "reason"], body :=
+def runBatchSequential : Func := { name := "runBatchSequential", recv := "", params := ["ctx", "node", "items", "results", "errorHandling"], body :=
 B[
-  (.rangeS "i" "_" (.var "results") B[
-    (.assign E[(.index (.var "results") (.var "i"))] E[(.call "NewErrorResult" E[(.call "fmt.Errorf" E[(.str "%s"), (.var "reason")])])])])] }
+  (.rangeS "i" "item" (.var "items") B[
+    (.ifS B[] (.bin "!=" (.mcall (.var "ctx") "Err" E[]) (.var "nil")) B[
+      (.assign E[(.index (.var "results") (.var "i"))] E[(.call "NewErrorResult" E[(.call "fmt.Errorf" E[(.str "context cancelled")])])]),
+      (.ifS B[] (.bin "==" (.var "errorHandling") (.str "stop")) B[
+        (.expr (.call "markUnprocessed" E[(.sliceFrom (.var "results") (.bin "+" (.var "i") (.int 1))), (.str "context cancelled")])),
+        .brk] B[]),
+      .cont] B[]),
+    (.define ["execResult", "err"] E[(.call "runExecWithRetries" E[(.var "ctx"), (.var "node"), (.var "item")])]),
+    (.ifS B[] (.bin "!=" (.var "err") (.var "nil")) B[
+      (.assign E[(.index (.var "results") (.var "i"))] E[(.call "NewErrorResult" E[(.var "err")])]),
+      (.ifS B[] (.bin "==" (.var "errorHandling") (.str "stop")) B[
+        (.expr (.call "markUnprocessed" E[(.sliceFrom (.var "results") (.bin "+" (.var "i") (.int 1))), (.str "batch stopped due to error")])),
+        .brk] B[])] B[
+      (.ifS B[(.define ["r", "ok"] E[(.assert (.var "execResult") "Result")])] (.var "ok") B[
+        (.assign E[(.index (.var "results") (.var "i"))] E[(.var "r")])] B[
+        (.assign E[(.index (.var "results") (.var "i"))] E[(.call "NewResult" E[(.var "execResult")])])])])])] }
 
 def runExecWithRetries : Func := { name := "runExecWithRetries", recv := "", params := ["ctx", "node", "item"], body :=
 B[
@@ -176,220 +1144,6 @@ B[
     (.ret E[(.var "nil"), (.var "execErr")])] B[]),
   (.ret E[(.var "execResult"), (.var "nil")])] }
 
-def Flow_Run : Func := { name := "Flow.Run", recv := "f", params := ["ctx", "shared"], body :=
-B[
-  (.define ["_", "err"] E[(.call "Run" E[(.var "ctx"), (.var "f"), (.var "shared")])]),
-  (.ret E[(.var "err")])] }
-
-def Flow_Prep : Func := { name := "Flow.Prep", recv := "f", params := ["ctx", "shared"], body :=
-B[
-  (.ret E[(.var "shared"), (.var "nil")])] }
-
-def Flow_Exec : Func := { name := "Flow.Exec", recv := "f", params := ["ctx", "prepResult"], body :=
-B[
-  (.define ["shared", "ok"] E[(.assert (.var "prepResult") "*SharedStore")]),
-  (.ifS B[] (.un "!" (.var "ok")) B[
-    (.ret E[(.var "nil"), (.call "fmt.Errorf" E[(.str "flow: exec failed: invalid prepResult type %T, expected *SharedStore"), (.var "prepResult")])])] B[]),
-  (.ifS B[] (.bin "==" (.sel (.var "f") "start") (.var "nil")) B[
-    (.ret E[(.var "nil"), (.call "fmt.Errorf" E[(.str "flow: exec failed: no start node configured")])])] B[]),
-  (.define ["current"] E[(.sel (.var "f") "start")]),
-  (.declare "lastAction" "Action"),
-  (.forS B[] (.bin "!=" (.var "current") (.var "nil")) B[] B[
-    (.ifS B[(.define ["err"] E[(.mcall (.var "ctx") "Err" E[])])] (.bin "!=" (.var "err") (.var "nil")) B[
-      (.ret E[(.var "nil"), (.call "fmt.Errorf" E[(.str "flow: exec cancelled: %w"), (.var "err")])])] B[]),
-    (.define ["action", "err"] E[(.call "Run" E[(.var "ctx"), (.var "current"), (.var "shared")])]),
-    (.ifS B[] (.bin "!=" (.var "err") (.var "nil")) B[
-      (.ret E[(.var "nil"), (.var "err")])] B[]),
-    (.assign E[(.var "lastAction")] E[(.var "action")]),
-    (.ifS B[(.define ["transitions", "ok"] E[(.index (.sel (.var "f") "transitions") (.var "current"))])] (.var "ok") B[
-      (.ifS B[(.define ["next", "ok"] E[(.index (.var "transitions") (.var "action"))])] (.var "ok") B[
-        (.assign E[(.var "current")] E[(.var "next")])] B[
-        .brk])] B[
-      .brk])]),
-  (.ret E[(.var "lastAction"), (.var "nil")])] }
-
-def Flow_Post : Func := { name := "Flow.Post", recv := "f", params := ["ctx", "shared", "prepResult", "execResult"], body :=
-B[
-  (.ifS B[(.define ["action", "ok"] E[(.assert (.var "execResult") "Action")])] (.var "ok") B[
-    (.ret E[(.var "action"), (.var "nil")])] B[]),
-  (.ret E[(.var "DefaultAction"), (.var "nil")])] }
-
-def Flow_Connect : Func := { name := "Flow.Connect", recv := "f", params := ["from", "action", "to"], body :=
-B[
-  (.ifS B[] (.bin "==" (.index (.sel (.var "f") "transitions") (.var "from")) (.var "nil")) B[
-    (.assign E[(.index (.sel (.var "f") "transitions") (.var "from"))] E[(.call "make" E[(.var "map[Action]Node")])])] B[]),
-  (.assign E[(.index (.index (.sel (.var "f") "transitions") (.var "from")) (.var "action"))] E[(.var "to")]),
-  (.ret E[(.var "f")])] }
-
-def NewFlow : Func := { name := "NewFlow", recv := "", params := ["start"], body :=
-B[
-  (.ret E[(.un "&" (.lit "Flow" E[(.bin ":" (.var "BaseNode") (.call "NewBaseNode" E[])), (.bin ":" (.var "start") (.var "start")), (.bin ":" (.var "transitions") (.call "make" E[(.var "map[Node]map[Action]Node")]))]))])] }
-
-def CustomNode_Prep : Func := { name := "CustomNode.Prep", recv := "n", params := ["ctx", "shared"], body :=
-B[
-  (.ifS B[] (.bin "!=" (.sel (.var "n") "prepFunc") (.var "nil")) B[
-    (.define ["result", "err"] E[(.mcall (.var "n") "prepFunc" E[(.var "ctx"), (.var "shared")])]),
-    (.ifS B[] (.bin "!=" (.var "err") (.var "nil")) B[
-      (.ret E[(.var "nil"), (.var "err")])] B[]),
-    (.ret E[(.mcall (.var "result") "Value" E[]), (.var "nil")])] B[]),
-  (.ret E[(.mcall (.sel (.var "n") "BaseNode") "Prep" E[(.var "ctx"), (.var "shared")])])] }
-
-def CustomNode_Exec : Func := { name := "CustomNode.Exec", recv := "n", params := ["ctx", "prepResult"], body :=
-B[
-  (.ifS B[] (.bin "!=" (.sel (.var "n") "execFunc") (.var "nil")) B[
-    (.declare "result" "Result"),
-    (.declare "err" "error"),
-    (.ifS B[(.define ["r", "ok"] E[(.assert (.var "prepResult") "Result")])] (.var "ok") B[
-      (.assign E[(.var "result"), (.var "err")] E[(.mcall (.var "n") "execFunc" E[(.var "ctx"), (.var "r")])])] B[
-      (.assign E[(.var "result"), (.var "err")] E[(.mcall (.var "n") "execFunc" E[(.var "ctx"), (.call "NewResult" E[(.var "prepResult")])])])]),
-    (.ifS B[] (.bin "!=" (.var "err") (.var "nil")) B[
-      (.ret E[(.var "nil"), (.var "err")])] B[]),
-    (.ifS B[] (.mcall (.var "result") "IsError" E[]) B[
-      (.ret E[(.var "result"), (.var "nil")])] B[]),
-    (.ret E[(.mcall (.var "result") "Value" E[]), (.var "nil")])] B[]),
-  (.ret E[(.mcall (.sel (.var "n") "BaseNode") "Exec" E[(.var "ctx"), (.var "prepResult")])])] }
-
-def CustomNode_Post : Func := { name := "CustomNode.Post", recv := "n", params := ["ctx", "shared", "prepResult", "execResult"], body :=
-B[
-  (.ifS B[] (.bin "!=" (.sel (.var "n") "postFunc") (.var "nil")) B[
-    (.define ["execRes"] E[(.call "NewResult" E[(.var "execResult")])]),
-    (.ifS B[(.define ["r", "ok"] E[(.assert (.var "execResult") "Result")])] (.bin "&&" (.var "ok") (.mcall (.var "r") "IsError" E[])) B[
-      (.assign E[(.var "execRes")] E[(.var "r")])] B[]),
-    (.ret E[(.mcall (.var "n") "postFunc" E[(.var "ctx"), (.var "shared"), (.call "NewResult" E[(.var "prepResult")]), (.var "execRes")])])] B[]),
-  (.ret E[(.mcall (.sel (.var "n") "BaseNode") "Post" E[(.var "ctx"), (.var "shared"), (.var "prepResult"), (.var "execResult")])])] }
-
-def CustomNode_ExecFallback : Func := { name := "CustomNode.ExecFallback", recv := "n", params := ["prepResult", "err"], body :=
-B[
-  (.ifS B[] (.bin "!=" (.sel (.var "n") "execFallbackFunc") (.var "nil")) B[
-    (.ret E[(.mcall (.var "n") "execFallbackFunc" E[(.var "prepResult"), (.var "err")])])] B[]),
-  (.ret E[(.mcall (.sel (.var "n") "BaseNode") "ExecFallback" E[(.var "prepResult"), (.var "err")])])] }
-
-def BaseNode_Prep : Func := { name := "BaseNode.Prep", recv := "n", params := ["ctx", "shared"], body :=
-B[
-  (.ret E[(.var "nil"), (.var "nil")])] }
-
-def BaseNode_Exec : Func := { name := "BaseNode.Exec", recv := "n", params := ["ctx", "prepResult"], body :=
-B[
-  (.ret E[(.var "nil"), (.var "nil")])] }
-
-def BaseNode_Post : Func := { name := "BaseNode.Post", recv := "n", params := ["ctx", "shared", "prepResult", "execResult"], body :=
-B[
-  (.ret E[(.var "DefaultAction"), (.var "nil")])] }
-
-def BaseNode_ExecFallback : Func := { name := "BaseNode.ExecFallback", recv := "n", params := ["prepResult", "err"], body :=
-B[
-  (.ret E[(.var "nil"), (.var "err")])] }
-
-def BaseNode_GetMaxRetries : Func := { name := "BaseNode.GetMaxRetries", recv := "n", params := [], body :=
-B[
-  (.expr (.mcall (.sel (.var "n") "mu") "RLock" E[])),
-  (.deferS (.mcall (.sel (.var "n") "mu") "RUnlock" E[])),
-  (.ret E[(.sel (.var "n") "maxRetries")])] }
-
-def BaseNode_GetWait : Func := { name := "BaseNode.GetWait", recv := "n", params := [], body :=
-B[
-  (.expr (.mcall (.sel (.var "n") "mu") "RLock" E[])),
-  (.deferS (.mcall (.sel (.var "n") "mu") "RUnlock" E[])),
-  (.ret E[(.sel (.var "n") "wait")])] }
-
-def BaseNode_GetBatchConcurrency : Func := { name := "BaseNode.GetBatchConcurrency", recv := "n", params := [], body :=
-B[
-  (.expr (.mcall (.sel (.var "n") "mu") "RLock" E[])),
-  (.deferS (.mcall (.sel (.var "n") "mu") "RUnlock" E[])),
-  (.ret E[(.sel (.var "n") "batchConcurrency")])] }
-
-def BaseNode_GetBatchErrorHandling : Func := { name := "BaseNode.GetBatchErrorHandling", recv := "n", params := [], body :=
-B[
-  (.expr (.mcall (.sel (.var "n") "mu") "RLock" E[])),
-  (.deferS (.mcall (.sel (.var "n") "mu") "RUnlock" E[])),
-  (.ifS B[] (.bin "==" (.sel (.var "n") "batchErrorHandling") (.str "")) B[
-    (.ret E[(.str "continue")])] B[]),
-  (.ret E[(.sel (.var "n") "batchErrorHandling")])] }
-
-def BatchNode_Prep : Func := { name := "BatchNode.Prep", recv := "n", params := ["ctx", "shared"], body :=
-B[
-  (.ifS B[] (.bin "!=" (.sel (.var "n") "batchPrepFunc") (.var "nil")) B[
-    (.ret E[(.mcall (.var "n") "batchPrepFunc" E[(.var "ctx"), (.var "shared")])])] B[]),
-  (.ret E[(.mcall (.sel (.var "n") "CustomNode") "Prep" E[(.var "ctx"), (.var "shared")])])] }
-
-def BatchNode_Post : Func := { name := "BatchNode.Post", recv := "n", params := ["ctx", "shared", "prepResult", "execResult"], body :=
-B[
-  (.ifS B[] (.bin "!=" (.sel (.var "n") "batchPostFunc") (.var "nil")) B[
-    (.define ["prep"] E[(.assert (.var "prepResult") "[]Result")]),
-    (.define ["exec"] E[(.assert (.var "execResult") "[]Result")]),
-    (.ret E[(.mcall (.var "n") "batchPostFunc" E[(.var "ctx"), (.var "shared"), (.var "prep"), (.var "exec")])])] B[]),
-  (.ret E[(.var "DefaultAction"), (.var "nil")])] }
-
-def BatchNodeBuilder_Prep : Func := { name := "BatchNodeBuilder.Prep", recv := "b", params := ["ctx", "shared"], body :=
-B[
-  (.ret E[(.mcall (.sel (.var "b") "BatchNode") "Prep" E[(.var "ctx"), (.var "shared")])])] }
-
-def BatchNodeBuilder_Exec : Func := { name := "BatchNodeBuilder.Exec", recv := "b", params := ["ctx", "prepResult"], body :=
-B[
-  (.ret E[(.mcall (.sel (.var "b") "BatchNode") "Exec" E[(.var "ctx"), (.var "prepResult")])])] }
-
-def BatchNodeBuilder_Post : Func := { name := "BatchNodeBuilder.Post", recv := "b", params := ["ctx", "shared", "prepResult", "execResult"], body :=
-B[
-  (.ret E[(.mcall (.sel (.var "b") "BatchNode") "Post" E[(.var "ctx"), (.var "shared"), (.var "prepResult"), (.var "execResult")])])] }
-
-def NewWorkerPool : Func := { name := "NewWorkerPool", recv := "", params := ["workers"], body :=
-B[
-  (.ifS B[] (.bin "<=" (.var "workers") (.int 0)) B[
-    (.assign E[(.var "workers")] E[(.int 1)])] B[]),
-  (.define ["p"] E[(.un "&" (.lit "WorkerPool" E[(.bin ":" (.var "workers") (.var "workers")), (.bin ":" (.var "tasks") (.call "make" E[(.var "chan func()"), (.bin "*" (.var "workers") (.int 2))])), (.bin ":" (.var "done") (.call "make" E[(.var "chan struct{}")]))]))]),
-  (.forS B[(.define ["i"] E[(.int 0)])] (.bin "<" (.var "i") (.var "workers")) B[(.incr "i")] B[
-    (.goS (.mcall (.var "p") "worker" E[]))]),
-  (.ret E[(.var "p")])] }
-
-def WorkerPool_worker : Func := { name := "WorkerPool.worker", recv := "p", params := [], body :=
-B[
-  (.forS B[] (.var "true") B[] B[
-    (.selectS (Cases.ofList [
-      ((.bin ":=" (.lit "names" E[(.var "task"), (.var "ok")]) (.un "<-" (.sel (.var "p") "tasks"))), B[
-        (.ifS B[] (.un "!" (.var "ok")) B[
-          (.ret E[])] B[]),
-        (.expr (.call "task" E[]))]),
-      ((.un "<-" (.sel (.var "p") "done")), B[
-        (.ret E[])])]))])] }
-
-def WorkerPool_Submit : Func := { name := "WorkerPool.Submit", recv := "p", params := ["task"], body :=
-B[
-  (.expr (.mcall (.sel (.var "p") "wg") "Add" E[(.int 1)])),
-  (.send (.sel (.var "p") "tasks") (.funcLit [] B[
-        (.deferS (.mcall (.sel (.var "p") "wg") "Done" E[])),
-        (.expr (.call "task" E[]))]))] }
-
-def WorkerPool_Wait : Func := { name := "WorkerPool.Wait", recv := "p", params := [], body :=
-B[
-  (.expr (.mcall (.sel (.var "p") "wg") "Wait" E[]))] }
-
-def WorkerPool_Close : Func := { name := "WorkerPool.Close", recv := "p", params := [], body :=
-B[
-  (.expr (.call "close" E[(.sel (.var "p") "done")])),
-  (.expr (.call "close" E[(.sel (.var "p") "tasks")]))] }
-
-def NewResult : Func := { name := "NewResult", recv := "", params := ["v"], body :=
-B[
-  (.ret E[(.lit "Result" E[(.bin ":" (.var "value") (.var "v"))])])] }
-
-def NewErrorResult : Func := { name := "NewErrorResult", recv := "", params := ["err"], body :=
-B[
-  (.ret E[(.lit "Result" E[(.bin ":" (.var "err") (.var "err"))])])] }
-
-def Result_IsError : Func := { name := "Result.IsError", recv := "r", params := [], body :=
-B[
-  (.ret E[(.bin "!=" (.sel (.var "r") "err") (.var "nil"))])] }
-
-def Result_Value : Func := { name := "Result.Value", recv := "r", params := [], body :=
-B[
-  (.ifS B[] (.bin "!=" (.sel (.var "r") "err") (.var "nil")) B[
-    (.ret E[(.var "nil")])] B[]),
-  (.ret E[(.sel (.var "r") "value")])] }
-
-def Result_Error : Func := { name := "Result.Error", recv := "r", params := [], body :=
-B[
-  (.ret E[(.sel (.var "r") "err")])] }
-
-def all : List Func := [Run, runBatch, runBatchSequential, runBatchConcurrent, markUnprocessed, runExecWithRetries, Flow_Run, Flow_Prep, Flow_Exec, Flow_Post, Flow_Connect, NewFlow, CustomNode_Prep, CustomNode_Exec, CustomNode_Post, CustomNode_ExecFallback, BaseNode_Prep, BaseNode_Exec, BaseNode_Post, BaseNode_ExecFallback, BaseNode_GetMaxRetries, BaseNode_GetWait, BaseNode_GetBatchConcurrency, BaseNode_GetBatchErrorHandling, BatchNode_Prep, BatchNode_Post, BatchNodeBuilder_Prep, BatchNodeBuilder_Exec, BatchNodeBuilder_Post, NewWorkerPool, WorkerPool_worker, WorkerPool_Submit, WorkerPool_Wait, WorkerPool_Close, NewResult, NewErrorResult, Result_IsError, Result_Value, Result_Error]
+def all : List Func := [As, BaseNode_Exec, BaseNode_ExecFallback, BaseNode_GetBatchConcurrency, BaseNode_GetBatchErrorHandling, BaseNode_GetMaxRetries, BaseNode_GetWait, BaseNode_Post, BaseNode_Prep, BatchError_Error, BatchNode_Post, BatchNode_Prep, BatchNodeBuilder_Exec, BatchNodeBuilder_Post, BatchNodeBuilder_Prep, BatchNodeBuilder_WithBatchConcurrency, BatchNodeBuilder_WithBatchErrorHandling, BatchNodeBuilder_WithExecFunc, BatchNodeBuilder_WithExecFuncAny, BatchNodeBuilder_WithMaxRetries, BatchNodeBuilder_WithPostFunc, BatchNodeBuilder_WithPrepFunc, BatchNodeBuilder_WithWait, CustomNode_Exec, CustomNode_ExecFallback, CustomNode_Post, CustomNode_Prep, Flow_Connect, Flow_Exec, Flow_Post, Flow_Prep, Flow_Run, MustAs, NewBaseNode, NewBatchNode, NewErrorResult, NewFlow, NewNode, NewResult, NewSharedStore, NewWorkerPool, NodeBuilder_Exec, NodeBuilder_ExecFallback, NodeBuilder_GetMaxRetries, NodeBuilder_GetWait, NodeBuilder_Post, NodeBuilder_Prep, NodeBuilder_WithBatchConcurrency, NodeBuilder_WithBatchErrorHandling, NodeBuilder_WithExecFallbackFunc, NodeBuilder_WithExecFunc, NodeBuilder_WithExecFuncAny, NodeBuilder_WithMaxRetries, NodeBuilder_WithPostFunc, NodeBuilder_WithPostFuncAny, NodeBuilder_WithPrepFunc, NodeBuilder_WithPrepFuncAny, NodeBuilder_WithWait, R, Result_AsBool, Result_AsBoolOr, Result_AsFloat64, Result_AsFloat64Or, Result_AsInt, Result_AsIntOr, Result_AsMap, Result_AsMapOr, Result_AsSlice, Result_AsSliceOr, Result_AsString, Result_AsStringOr, Result_Bind, Result_Error, Result_IsError, Result_IsNil, Result_MustBind, Result_MustBool, Result_MustFloat64, Result_MustInt, Result_MustMap, Result_MustSlice, Result_MustString, Result_Type, Result_Value, Run, SharedStore_Bind, SharedStore_Clear, SharedStore_Delete, SharedStore_Get, SharedStore_GetAll, SharedStore_GetBool, SharedStore_GetBoolOr, SharedStore_GetFloat64, SharedStore_GetFloat64Or, SharedStore_GetInt, SharedStore_GetIntOr, SharedStore_GetMap, SharedStore_GetMapOr, SharedStore_GetSlice, SharedStore_GetSliceOr, SharedStore_GetString, SharedStore_GetStringOr, SharedStore_Has, SharedStore_Keys, SharedStore_Len, SharedStore_Merge, SharedStore_MustBind, SharedStore_Set, ToSlice, WithBatchConcurrency, WithBatchErrorHandling, WithExecFallbackFunc, WithExecFunc, WithExecFuncAny, WithMaxRetries, WithPostFunc, WithPostFuncAny, WithPrepFunc, WithPrepFuncAny, WithWait, WorkerPool_Close, WorkerPool_Submit, WorkerPool_Wait, WorkerPool_worker, customNodeOption_apply, markUnprocessed, runBatch, runBatchConcurrent, runBatchSequential, runExecWithRetries]
 
 end Flyt.Expected.IR
